@@ -36,13 +36,16 @@ func ListCar(c *cli.Context) error {
 		return listUnixfs(c, outStream)
 	}
 
-	inStream := os.Stdin
+	// Standard input may be a pipe: an *os.File whose Seek method fails. Hide
+	// everything but Read so that a CARv2 header's padding is skipped by reading.
+	var inStream io.Reader = struct{ io.Reader }{os.Stdin}
 	if c.Args().Len() >= 1 {
-		inStream, err = os.Open(c.Args().First())
+		inFile, err := os.Open(c.Args().First())
 		if err != nil {
 			return err
 		}
-		defer inStream.Close()
+		defer inFile.Close()
+		inStream = inFile
 	}
 
 	rd, err := carv2.NewBlockReader(inStream)
